@@ -201,16 +201,33 @@ class _ManifoldDynamicsService(_DynamicsServiceBase):
     @property
     def manifold_result(self) -> Tuple[float, float, List[np.ndarray], List[np.ndarray], int, int]:
         """The manifold result."""
+        self._sync_with_orbit()
         return self._manifold_result
 
     @property
     def trajectories(self) -> List[Trajectory]:
         """The trajectories of the manifold."""
+        self._sync_with_orbit()
         if self._manifold_result is None:
             return None
         states_list = self._manifold_result[2]
         times_list = self._manifold_result[3]
         return [Trajectory(times, states) for times, states in zip(times_list, states_list)]
+
+    def _sync_with_orbit(self) -> None:
+        """Drop everything derived from an earlier state of the generating orbit.
+
+        The memo keys identify the orbit by ``id()`` only, but the orbit is mutable
+        (period setter, differential correction).
+        """
+        state_key = (
+            tuple(np.asarray(self.orbit.initial_state, dtype=float).tolist()),
+            self.orbit.period,
+        )
+        if getattr(self, "_orbit_state_key", None) != state_key:
+            self.reset()
+            self._manifold_result = None
+            self._orbit_state_key = state_key
 
     def compute_stm(
         self,
@@ -231,6 +248,7 @@ class _ManifoldDynamicsService(_DynamicsServiceBase):
         Tuple[np.ndarray, np.ndarray, np.ndarray, np.ndarray]
             The stm of the manifold.
         """
+        self._sync_with_orbit()
         cache_key = self.make_key(id(self.orbit), steps, self.forward)
         
         def _factory() -> Tuple[np.ndarray, np.ndarray, np.ndarray, np.ndarray]:
@@ -258,6 +276,7 @@ class _ManifoldDynamicsService(_DynamicsServiceBase):
         safe_distance: float,
         show_progress: bool,
     ) -> Tuple[float, float, List[np.ndarray], List[np.ndarray], int, int]:
+        self._sync_with_orbit()
         cache_key = self.make_key(
             id(self.orbit),
             self.stable,
@@ -274,7 +293,7 @@ class _ManifoldDynamicsService(_DynamicsServiceBase):
         )
 
         def _factory() -> Tuple[float, float, List[np.ndarray], List[np.ndarray], int, int]:
-            self._manifold_result = self._run_compute(
+            return self._run_compute(
                 step=step,
                 integration_fraction=integration_fraction,
                 NN=NN,
@@ -286,9 +305,10 @@ class _ManifoldDynamicsService(_DynamicsServiceBase):
                 safe_distance=safe_distance,
                 show_progress=show_progress,
             )
-            return self._manifold_result
 
-        return self.get_or_create(cache_key, _factory)
+        # The stored result is the one of the latest call, also when it is served from the cache
+        self._manifold_result = self.get_or_create(cache_key, _factory)
+        return self._manifold_result
 
     def _run_compute(
         self,
@@ -458,6 +478,7 @@ class _ManifoldDynamicsService(_DynamicsServiceBase):
         if options is None:
             options = self.eigendecomposition_options
             
+        self._sync_with_orbit()
         key = self.make_key(id(self.domain_obj), tuple(sorted(options.to_dict().items())))
         
         def _factory() -> StabilityPipeline:
